@@ -52,6 +52,35 @@ def blocked(variant):
     return ob
 
 
+PAUSE_TEXT = 'the contract is temporarily paused'
+
+
+def unpaused(variant):
+    """unpausing restores the pre-pause behaviour: with the stored flag absent (None, as an UpdateParams that omits it leaves
+    it) or Some(false) no message is turned away by the pause gate"""
+    def ob(ctx):
+        W = HubWorld(ctx, n_validators=1, n_delegations=1)
+        W.paused = SymEnum(W.iv('paused_tag', 0, 1), (NONE, some(False)))
+        W.install()
+        I = W.I
+        pause_id = I.intern(PAUSE_TEXT)
+        sender = StrV(z3.Int('sender'))
+        W.mv['sender'] = sender.id
+        msg = sym_msg(W, MSG, variant, HUB, veclen=1)
+        funds = [W.mk.coin(W.iv('funds_amount', 0, CAP), W.denom)]
+        raw_scenario(W, 'execute', msg, sender, funds, querier=hub_querier_template(W))
+        n = 0
+        for st, res in W.execute(msg, sender, funds):
+            n += 1
+            if is_err(res):
+                e = res.fields[0]
+                mid = e.fields[0].id if (isinstance(e, Agg) and e.fields and isinstance(e.fields[0], StrV)) else None
+                if mid == pause_id:
+                    ctx.infeasible(st, 'a hub that is not paused (flag absent or false) turns %s away as paused' % variant, 'unpaused:%s' % variant, W.mv)
+        ctx.need_witness('paths explored', n > 0)
+    return ob
+
+
 def ob_update_params_paused(ctx):
     """while paused: UpdateParams only from the owner; unpausing impossible while legacy entries remain."""
     nwit = 0
@@ -165,13 +194,15 @@ def ob_enumeration(ctx):
 
 BLOCKED = ['UpdateConfig', 'SetOwner', 'AcceptOwnership', 'Bond', 'BondForStSei', 'BondRewards', 'UpdateGlobalIndex', 'WithdrawUnbonded',
            'CheckSlashing', 'Receive', 'ClaimAirdrop', 'SwapHook', 'RedelegateProxy']
-OBLIGATIONS = [('enumeration', ob_enumeration)] + [('blocked_%s' % v, blocked(v)) for v in BLOCKED] + \
+OBLIGATIONS = [('enumeration', ob_enumeration)] + [('blocked_%s' % v, blocked(v)) for v in BLOCKED] + [('unpaused_%s' % v, unpaused(v)) for v in BLOCKED] + \
     [('update_params_while_paused', ob_update_params_paused), ('migrate_wait_list', ob_migrate), ('queries', ob_queries)]
 
 
 def ORACLE(v, scn, out):
     key = v.get('key') or ''
     res = out.get('result', {})
+    if key.startswith('unpaused:'):
+        return ['turned away as paused: ' + str(res)[:200]] if PAUSE_TEXT in str(res) else []
     if key.startswith('paused:'):
         return ['accepted while paused: ' + str(res)[:200]] if 'ok' in res else []
     if key == 'update_params:owner':
